@@ -1213,6 +1213,12 @@ class Interp:
         if isinstance(obj, (Closure, BoundMethod)):
             if name in ("__name__", "__qualname__"):
                 return getattr(obj, "qualname", getattr(obj, "name", "?")).split(".")[-1] if name == "__name__" else getattr(obj, "qualname", "?")
+            if isinstance(obj, Closure) and not (name.startswith("__") and name.endswith("__")):
+                # function objects carry arbitrary user attributes (set with setattr); a missing one is an AttributeError
+                attrs = obj.__dict__.get("fn_attrs", {})
+                if name in attrs:
+                    return attrs[name]
+                raise self.mkraise(SExc(AttributeError, (f"'function' object has no attribute {name!r}",)))
             raise Unsupported(f"attribute {name} of interpreted function")
         if obj is None:
             raise self.mkraise(SExc(AttributeError, (f"'NoneType' object has no attribute {name!r}",)))
@@ -1234,6 +1240,11 @@ class Interp:
             return
         if isinstance(obj, SExc):
             obj.attrs[name] = v
+            return
+        if isinstance(obj, Closure):
+            if name.startswith("__") and name.endswith("__"):
+                raise Unsupported(f"assignment to {name} of an interpreted function")
+            obj.__dict__.setdefault("fn_attrs", {})[name] = v
             return
         if isinstance(obj, (Sym, SList, SMap)) or obj is None:
             raise self.mkraise(SExc(AttributeError, (f"cannot set attribute {name!r}",)))
